@@ -1,7 +1,7 @@
 """C04 (readiness clause, modular): the chain Plan::EdgeFinished -> NodeFinished -> EdgeMaybeReady -> ScheduleWork / pass-through and
 Plan::ScheduleInitialEdges, Edge::AllInputsReady, each real function against the contracts of its callees (props/planunit.py)."""
 from engine.selftest import subst
-from props import planjobs
+from props import planjobs, builderjobs
 
 ID = "C04"
 USES_CPP = True
@@ -15,7 +15,8 @@ MANIFEST = {
                 "every producer of each of its inputs (explicit, implicit, order-only; dyndep/depfile inputs are ordinary inputs by then) has finished successfully; "
                 "dependents are notified only about nodes whose producer finished; a failed command notifies nobody. 'Under every completion order' follows only "
                 "as far as these per-call contracts compose (each postcondition is asserted as the next function's precondition at its call sites); no schedule is explored. "
-                "NOT decided: output directories / response file in place (Builder::StartEdge), validations impose no ordering, dyndep re-planning (Plan::DyndepsLoaded).",
+                "Builder::StartEdge (real text, DiskInterface/CommandRunner by contract): the directories of every output and of the depfile are created and the response file is written "
+                "before the command is started, and the command is not started if any of that fails. NOT decided: validations impose no ordering, dyndep re-planning (Plan::DyndepsLoaded).",
         "design_ref": "DESIGN.md 5 C04",
     },
     "level_note": "trusted: " + "; ".join(planjobs.PLAN_TRUST),
@@ -26,7 +27,7 @@ KEYS = ["M1", "M2", "M3", "M4", "M8"]
 
 
 def jobs(tier, mutant=None):
-    return planjobs.select(tier, KEYS, r'\bC04\b', mutant)
+    return planjobs.select(tier, KEYS, r'\bC04\b', mutant) + builderjobs.select(tier, ["B1"], r'\bC04\b', mutant)
 
 
 def _m(target, old, new):
@@ -41,6 +42,8 @@ MUTANTS = [
     ("ready_flag_set_on_failure", _m("EdgeFinished", "  // The rest of this function only applies to successful commands.\n  if (result != kEdgeSucceeded)\n    return true;\n", "  edge->outputs_ready_ = true;\n  if (result != kEdgeSucceeded)\n    return true;\n")),
     ("implicit_outputs_not_notified", _m("EdgeFinished", "o != edge->outputs_.end(); ++o) {\n    if (!NodeFinished", "o != edge->outputs_.end() - edge->implicit_outs_; ++o) {\n    if (!NodeFinished")),
     ("initial_edges_ignore_readiness", _m("ScheduleInitialEdges", "if (want == kWantToStart && edge->AllInputsReady()) {", "if (want == kWantToStart) {")),
+    ("depfile_dir_not_created", _m("StartEdge", "  if (!depfile.empty() && !disk_interface_->MakeDirs(depfile))\n    return false;\n", "")),
+    ("mkdir_failure_ignored", _m("StartEdge", "    if (!disk_interface_->MakeDirs((*o)->path()))\n      return false;", "    disk_interface_->MakeDirs((*o)->path());")),
     ("unplanned_consumer_checked", _m("NodeFinished", "    if (want_e == want_.end())\n      continue;\n", "    if (want_e == want_.end())\n      break;\n")),
 ]
 
@@ -56,14 +59,14 @@ def replay(job, ob, vals, scratch):
 def describe(tier):
     return {
         "functions": ["build.cc:Plan::EdgeFinished", "build.cc:Plan::NodeFinished", "build.cc:Plan::EdgeMaybeReady", "build.cc:Plan::ScheduleWork",
-                      "build.cc:Plan::ScheduleInitialEdges", "graph.cc:Edge::AllInputsReady", "build.h:struct Plan"],
+                      "build.cc:Plan::ScheduleInitialEdges", "graph.cc:Edge::AllInputsReady", "build.h:struct Plan", "build.cc:Builder::StartEdge"],
         "checker_cmd": "goto-cc -std=c++11 unit.cc (slices + stubs + harness); cbmc a.gb --unwind N --unwinding-assertions + bounds/pointer/overflow checks",
-        "trusted_base": planjobs.PLAN_TRUST,
+        "trusted_base": planjobs.PLAN_TRUST + builderjobs.TRUST,
         "bounds": {t: "inputs per edge <= 3, outputs <= 2, consumers per node <= 3, initial edges %d; plan membership enumerated, all flags symbolic" % (3 if t == "thorough" else 2) for t in ("quick", "thorough")},
         "assumptions": planjobs.PLAN_ASSUME + [
             "Pool and the ready queue are contract stubs here (the real Pool is under contract in C06); Builder::StartEdge / RealCommandRunner start exactly the edges FindWork returns: by inspection",
             "dyndep- and depfile-discovered inputs are in inputs_ by the time these functions run (DyndepLoader / ImplicitDepLoader: not under contract)"],
-        "silent": ["directories of outputs and depfile exist, response file written (Builder::StartEdge)", "validation targets impose no ordering",
+        "silent": ["validation targets impose no ordering",
                    "re-planning after a dyndep load (Plan::DyndepsLoaded)", "every completion order / degree of parallelism as a whole-build statement"],
         "explanation": "Per-function contracts over the plan's abstract state (want_ map, outputs_ready flags); the C04 statement is the precondition of the hand-over points "
                        "(ready_.push, Pool::DelayEdge, pass-through) and is asserted there.",
